@@ -288,6 +288,10 @@ var c04Zones = []string{"UTC", "Asia/Kolkata", "America/St_Johns", "Pacific/Chat
 
 func c04GenTime(s Src) c04TimeCase {
 	base := pickOne(s, []int64{0, 951782400, 1582934400, 1709251199, 1711846800, 1698541200, 253402300799 - 86400, -62135596800 + 86400*400, 1e9})
+	if s.Prob(12) {
+		// the exact ends of the DateTime range and the epoch (time.Time's zero value is the first of them)
+		return c04TimeCase{Unix: pickOne(s, []int64{-62135596800, 0, 253402300799, -62135596800 + 1}), Nanos: pickOne(s, []int{0, 0, 1e6}), Zone: pickOne(s, []string{"UTC", "UTC", "fixed:+00:00", "fixed:+05:45", "Pacific/Kiritimati", "Local"})}
+	}
 	return c04TimeCase{Unix: base + int64(s.Range(-100000, 100000)), Nanos: pickOne(s, []int{0, 1e6, 999e6, 500e6, 123456789, 999999999}), Zone: pickOne(s, c04Zones)}
 }
 
